@@ -37,29 +37,10 @@ Definition x_tmp (n : name) : loc := InCache (tmp_dir ++ [n]).
 
 (* commit with the content path already computed *)
 Definition close' (cp : path) (w : wstate) : prog (res integrity) :=
-  let sri := sri_of hash (w_algo w) (w_data w) in
-  let trunc := match w_map w with
-               | Some sz => if w_pos w <? sz then step_ok (Truncate (w_tmp w) (w_pos w)) else Ret (Ok tt)
-               | None => Ret (Ok tt) end in
-  Do (MkdirAll (parent cp)) (fun r0 =>
-    match r0 with
-    | RErr _ => unlink_quiet (w_tmp w) (Err EIoErr)
-    | _ =>
-      bind trunc (fun rt =>
-        match rt with
-        | Ok _ =>
-            Do (Rename (w_tmp w) (InCache cp)) (fun r =>
-              match r with
-              | RErr _ =>
-                  Do (Exists (InCache cp)) (fun r2 =>
-                    match r2 with
-                    | RBool true => unlink_quiet (w_tmp w) (Ok sri)
-                    | _ => unlink_quiet (w_tmp w) (Err EIoErr)
-                    end)
-              | _ => Ret (Ok sri)
-              end)
-        | _ => unlink_quiet (w_tmp w) (Err EIoErr)
-        end)
+  bind (trim w) (fun rt =>
+    match rt with
+    | Ok _ => publish w cp (sri_of hash (w_algo w) (w_data w))
+    | _ => unlink_quiet (w_tmp w) (Err EIoErr)
     end).
 
 Lemma close_writer_close' w :
